@@ -350,10 +350,9 @@ fn do_map_update(
     f: KValue,
     vm: &mut KotoVm,
 ) -> Result<KValue> {
-    if !map.data().contains_key(&key) {
-        map.data_mut().insert(key.clone(), default);
-    }
-    let value = map.get(&key).unwrap();
+    // The default value is only passed to the function, an entry gets inserted once the function
+    // has succeeded (a failing function shouldn't leave a new entry behind).
+    let value = map.get(&key).unwrap_or(default);
     match vm.call_function(f, value) {
         Ok(new_value) => {
             map.data_mut().insert(key, new_value.clone());
